@@ -41,17 +41,18 @@ RULE = (
 )
 ASSUMPTIONS = [
     "the allowed language is the one written down in vlib/exprsafe.py (numbers, names, flow selectors, pi, + - * / ** unary -/+, < <= > >= == !=, positional calls of the 17 listed functions); "
-    "// % @ is/in, complex/bool constants, wrong arity, listed function used as a value and strings >= 1800 characters are 'unspecified': no assertion either way, never evaluated",
+    "// % @ is/in, complex/bool constants, wrong arity, listed function used as a value, strings >= 1800 characters, nesting deeper than 40 levels and strings whose ':' can be read both as a "
+    "selector and as Python syntax (lambda:x) are 'unspecified': no assertion either way, never evaluated",
     "any exception counts as 'rejected when parsed' (the exception type belongs to C18)",
     "arith domain: operands finite, |intermediate| <= 1e12, x/0 with x != 0, 0**0, 0**negative, negative**non-integer, sqrt(<0), ln(<=0) are masked element-wise; truth values only at the "
-    "root or multiplied by a number (numpy bool+bool is logical-or: type semantics, not real arithmetic); comparisons / floor / zero-numerator tests closer than the accumulated rounding "
+    "root or multiplied by a number (numpy bool+bool is logical-or: type semantics, not real arithmetic); integer-typed base ** negative integer-typed exponent is masked (numpy integers refuse it); comparisons / floor / zero-numerator tests closer than the accumulated rounding "
     "bound are masked; rand/randn and the population aggregations are parsed but not evaluated; arrays in one case share one length",
     "tolerance |got-ref| <= 1e-12*max(1,|ref|) + running error bound (16 eps per operation); elements whose bound exceeds 1e-9*max(1,|ref|) are skipped as ill-conditioned",
     "evaluate_plot_string: strings with '{' or '[' must be list/dict displays of string constants (its docstring / assertion message); other strings are returned verbatim; "
     "the module-level name eval seen by atomica.utils is replaced by a recorder while the harness calls it",
 ]
-BUDGET = {"quick": 128000, "thorough": 6000000}
-TIME_CAP = {"quick": 40, "thorough": 1100}
+BUDGET = {"quick": 96000, "thorough": 6000000}
+TIME_CAP = {"quick": 35, "thorough": 1100}
 TOL = 1e-12
 ATHERIS_SECONDS = int(os.environ.get("C19_ATHERIS_SECONDS", "420"))
 
@@ -480,7 +481,7 @@ def _names_in(src):
     return [n.id.replace("___", ":") for n in ast.walk(tree) if isinstance(n, ast.Name)]
 
 
-_INTS = st.lists(st.integers(0, 1 << 16), min_size=4, max_size=70)
+_INTS = st.binary(min_size=96, max_size=96).map(list)  # fixed length: every choice is drawn (a short list decodes to trivial strings); one draw is cheap
 
 
 def gram_pf():
@@ -556,27 +557,38 @@ class _Would(object):
 
 
 _WOULD = _Would()
-_GUARD = {"allow": False, "hits": 0, "active": None}
+_GUARD = {"allow": False, "armed": False, "hits": 0, "active": None}
 
 
 def _install_guard(utils):
-    """make the name eval seen by atomica.utils a recorder, so nothing the validator rejects is ever evaluated"""
+    """make the name eval seen by atomica.utils a recorder, so nothing the validator rejects is ever evaluated
+
+    The recorder only intercepts while the harness is inside check_ps_string ("armed"); any other caller in
+    the process gets the ordinary eval with its own frame's namespaces.
+    """
     if _GUARD["active"] is not None:
         return _GUARD["active"]
     import builtins
 
     def guarded_eval(code, *a, **k):
+        if not _GUARD["armed"]:
+            if a or k:
+                return builtins.eval(code, *a, **k)
+            fr = sys._getframe(1)
+            return builtins.eval(code, fr.f_globals, fr.f_locals)
         _GUARD["hits"] += 1
         if _GUARD["allow"]:
             return builtins.eval(code, {"__builtins__": {}}, {})
         return _WOULD
 
     utils.eval = guarded_eval
-    _GUARD["allow"] = False
+    _GUARD["allow"], _GUARD["armed"] = False, True
     try:
         r = utils.evaluate_plot_string("['a']")
     except Exception:
         r = None
+    finally:
+        _GUARD["armed"] = False
     _GUARD["active"] = r is _WOULD
     return _GUARD["active"]
 
@@ -589,7 +601,7 @@ def check_ps_string(src, harmless):
         return ["ps:skipped-guard-inactive"]
     v = X.validate_plot_string(src)
     labels = ["ps:%s" % v.status + (":%s" % v.node if v.node else "")]
-    _GUARD["allow"] = v.status == "allowed"
+    _GUARD["allow"], _GUARD["armed"] = v.status == "allowed", True
     try:
         try:
             out = utils.evaluate_plot_string(src)
@@ -597,7 +609,7 @@ def check_ps_string(src, harmless):
         except Exception as e:  # noqa
             accepted, exc, out = False, e, None
     finally:
-        _GUARD["allow"] = False
+        _GUARD["allow"], _GUARD["armed"] = False, False
     if v.status == "verbatim":
         if not accepted or out != src:
             raise Violation(ID, "plot/verbatim", "evaluate_plot_string(%r) -> %r / %r; a string without brackets must be returned unchanged" % (_short(src), out, exc))
@@ -622,10 +634,6 @@ def check_ps_string(src, harmless):
         else:
             labels.append("ps:allowed-but-not-a-literal")  # e.g. unhashable dict key
     return labels
-
-
-def _first_forbidden_depth(v):
-    return v.depth if v.status == "forbidden" else 0
 
 
 def _check_string_case(case):
@@ -811,7 +819,12 @@ def _check_atheris(case):
         return {"nontrivial": False, "labels": ["atheris:%s:did-not-run" % case["campaign"]], "inconclusive": {"atheris-did-not-run": 1}}
     with open(out) as f:
         res = json.load(f)
-    summary = {"campaign": case["campaign"], "status": "ok", "rc": r.returncode, "executions": res["executions"], "wall_s": round(wall, 1), "distinct_strings_by_status": res["status_counts"], "findings": sorted(res["findings"]), "corpus_files": len(os.listdir(corpus)), "crash": res.get("crash")}
+    import re
+
+    m = re.search(r"Done (\d+) runs in", r.stderr or "")
+    if m:
+        res["executions"] = max(res["executions"], int(m.group(1)))  # the findings file is refreshed once a second; libFuzzer's own count is exact
+    summary = {"campaign": case["campaign"], "status": "ok", "rc": r.returncode, "executions": res["executions"], "wall_s": round(wall, 1), "executions_by_status": res["status_counts"], "findings": sorted(res["findings"]), "corpus_files": len(os.listdir(corpus)), "crash": res.get("crash")}
     _write_summary(summary)
     labels = ["atheris:%s:campaign" % case["campaign"], "atheris:%s:execs>=%d" % (case["campaign"], 10 ** (len(str(max(res["executions"], 1))) - 1))]
     if res.get("crash"):
